@@ -501,6 +501,11 @@ def run_gbs_scenarios(seed, start, count):
                     if floor < chi / (n * (1 + chi)) * (1 - 1e-9):
                         msgs.append(f"stored fraction {floor:.3e} below chi/(n(1+chi))")
                     at_floor = np.isclose(fn_, floor, rtol=1e-12, atol=0) & (fn_ * (1 + chi) <= chi / n * (1 + 1e-9) * (1 + chi))
+                    # several grains sharing exactly the minimum are floored grains: their value is (chi/n)/S with S >= 1
+                    tied = fn_ == floor
+                    frozen = np.array([np.array_equal(On[g_], O_start[g_]) for g_ in range(n)])
+                    if int(tied.sum()) >= 2 and frozen[tied].all() and not frozen.all() and floor > chi / n * (1 + 1e-9):
+                        msgs.append(f"frozen grains sit at {floor * n:.4f}/n, above the threshold chi/n = {chi:.2f}/n (regime {sc['regime']})")
                     # grains at the floor value chi/(n S): frozen at the start-of-update orientation
                     S_ = (chi / n) / floor if floor > 0 else None
                     if S_ is not None and 1 - 1e-9 <= S_ <= 1 + chi + 1e-9:
